@@ -45,9 +45,12 @@ type TxnEvent struct {
 	Hung      []string          `json:"hung"`
 	Followed  int               `json:"followed"` // schedule steps the real code followed
 	Drift     string            `json:"drift"`    // first point where the code did not follow the schedule ("" = followed)
-	Seen      [][]string        `json:"seen"`     // yield points actually passed, in order
-	T1Present bool              `json:"t1present"` // T1's intent still in the intended store
-	T2Present bool              `json:"t2present"`
+	// Refused: at the drift point the model has the process parked behind a successful dmutex.TryLock, but the
+	// real call had already returned "locked": the code held the datastore mutex where the model does not
+	Refused   string     `json:"refused"`
+	Seen      [][]string `json:"seen"`      // yield points actually passed, in order
+	T1Present bool       `json:"t1present"` // T1's intent still in the intended store
+	T2Present bool       `json:"t2present"`
 }
 
 type gate struct {
@@ -56,12 +59,16 @@ type gate struct {
 }
 
 type txnSched struct {
-	mu      sync.Mutex
-	enabled bool
-	free    bool
-	parked  map[string]*gate // process -> gate it is parked at
-	arrive  chan string      // process names arriving at a gate
-	seen    [][]string
+	mu        sync.Mutex
+	enabled   bool
+	free      bool
+	parked    map[string]*gate // process -> gate it is parked at
+	arrive    chan string      // process names arriving at a gate
+	seen      [][]string
+	timerDone bool
+	relocks   int
+	// giveUp is called when set2 arrives at set.relock for the MaxRetry-th time: the model's Set gives up then
+	giveUp func()
 }
 
 func procOf(point, id string) string {
@@ -90,6 +97,25 @@ func (s *txnSched) yield(point, id string) {
 	if p == "" {
 		s.mu.Unlock()
 		return
+	}
+	if point == "timer.done" {
+		// not a model step: marks the end of the timer goroutine's work
+		s.timerDone = true
+		s.mu.Unlock()
+		select {
+		case s.arrive <- p:
+		default:
+		}
+		return
+	}
+	if point == "set.relock" && !s.free {
+		s.relocks++
+		if s.relocks >= 2 && s.giveUp != nil {
+			// MaxRetry = 2 registration attempts in the model: the context of the Set expires now
+			s.giveUp()
+			s.mu.Unlock()
+			return
+		}
 	}
 	s.seen = append(s.seen, []string{p, point})
 	if s.free {
@@ -265,9 +291,15 @@ func (r *TxnRunner) Run(b *TxnBehaviour) error {
 		})
 	}
 	if has("set2") {
+		c, cf := context.WithTimeout(ctx, 3*time.Second)
+		if b.Free {
+			c, cf = context.WithTimeout(ctx, 450*time.Millisecond)
+		}
+		sch.mu.Lock()
+		sch.giveUp = cf
+		sch.mu.Unlock()
 		launch("set2", func() error {
-			// the context bounds how long the Set waits for the slot (MaxRetry attempts of 200ms in the model)
-			c, cf := context.WithTimeout(ctx, 450*time.Millisecond)
+			// the context bounds how long the Set waits for the slot: it is cancelled after MaxRetry attempts (model)
 			defer cf()
 			resp, err := ds.D.TransactionSet(c, "T2", []*types.TransactionIntent{t2}, nil, 30*time.Second, false)
 			if err == nil && hasErrors(resp) {
@@ -277,6 +309,11 @@ func (r *TxnRunner) Run(b *TxnBehaviour) error {
 		})
 	}
 	isFinished := func(p string) bool {
+		if p == "timer" {
+			sch.mu.Lock()
+			defer sch.mu.Unlock()
+			return sch.timerDone
+		}
 		amu.Lock()
 		defer amu.Unlock()
 		return finished[p]
@@ -320,6 +357,11 @@ func (r *TxnRunner) Run(b *TxnBehaviour) error {
 				if p == "timer" || isFinished(p) {
 					// the code took fewer steps than the model for this process (e.g. no separate lock step)
 					ev.Drift = fmt.Sprintf("step %d: %s not parked (model leaves %s)", i, p, from)
+					amu.Lock()
+					if strings.HasSuffix(from, ".lock") && ev.Answers[p] == "locked" {
+						ev.Refused = p
+					}
+					amu.Unlock()
 				} else {
 					ev.Drift = fmt.Sprintf("step %d: %s not parked and not finished", i, p)
 				}
@@ -372,7 +414,7 @@ func (r *TxnRunner) Run(b *TxnBehaviour) error {
 	n := ev.DevCalls
 	if ev.Answers["set2"] == "ok" {
 		n-- // T2's own apply
-		if (b.CancelID == "T2" && ev.Answers["cancel"] == "ok") {
+		if b.CancelID == "T2" && ev.Answers["cancel"] == "ok" {
 			n-- // rollback of T2
 		}
 	}
